@@ -53,7 +53,7 @@ def install(R):
         return mk_bool(z3.ForAll([q], z3.Implies(z3.Not(istmp(q)), z3.If(q == p, z3.Or(same, grown_), same))))
     S["GrowCrash"] = grow_crash
 
-    R.add(K + "grow", result="none", props=["C04", "C08"],
+    R.add(K + "grow", result="none", props=["C04", "C08", "C16"],
           types={"crop": "obj:Crop", "verbosity": "int"},
           fn_params={"fn": dict()},
           requires=[
@@ -178,7 +178,7 @@ def install_sow2(R):
         return mk_V(z3.If(is_r, fv, z3.If(is_h, sub, T.VNone)))
     S["CropRunner"] = crop_runner
 
-    R.add(K + "Crop.parse_constants", cls="Crop", result="V", props=["C04", "C06", "C07"],
+    R.add(K + "Crop.parse_constants", cls="Crop", result="V", props=["C04", "C06", "C07", "C15"],
           requires=[("constants", "constants is None or is_dict(constants)")],
           ensures=[("raw", "implies(self.farmer is None, (result == constants) if is_dict(constants) else slen(result.keys()) == 0)"),
                    ("dict", "is_dict(result)"),
@@ -303,7 +303,7 @@ def install_sow3(R):
           ],
           raises={"AnyError": dict()})
 
-    R.add(K + "Crop.grow", cls="Crop", result="none", props=["C04", "C08"],
+    R.add(K + "Crop.grow", cls="Crop", result="none", props=["C04", "C08", "C16"],
           modifies=["*"],
           ensures=[("each_listed_batch_once", "ncalled('combo_runner_core') == 1 and FnIsGrow(call_arg('combo_runner_core', 'fn')) and "
                                               "slen(call_arg('combo_runner_core', 'combos')) == 1 and "
